@@ -412,3 +412,93 @@ Proof.
       assert (N.log2 x < 64) by (apply N.log2_lt_pow2; lia). lia.
 Qed.
 
+
+(* ---------- byte packing: the bits read back from the bytes are the bits written plus zero
+   padding of the last byte ---------- *)
+Local Transparent bits_of.
+
+Lemma bits_of_of_bits : forall bs, bits_of (of_bits bs) (length bs) = bs.
+Proof.
+  induction bs as [|b r IH]; [reflexivity|].
+  cbn [of_bits length bits_of].
+  assert (Hodd : N.odd ((if b then 1 else 0) + 2 * of_bits r) = b).
+  { destruct b.
+    - rewrite N.odd_add_mul_2. reflexivity.
+    - rewrite N.odd_add_mul_2. reflexivity. }
+  assert (Hdiv : N.div2 ((if b then 1 else 0) + 2 * of_bits r) = of_bits r).
+  { rewrite N.div2_div. destruct b.
+    - symmetry. apply N.div_unique with 1; lia.
+    - rewrite N.add_0_l. rewrite N.mul_comm. apply N.div_mul. lia. }
+  rewrite Hodd, Hdiv, IH. reflexivity.
+Qed.
+
+Lemma take_byte_spec : forall k s,
+  length (fst (take_byte k s)) = k /\
+  ((k <= length s)%nat -> fst (take_byte k s) ++ snd (take_byte k s) = s /\
+                         length (snd (take_byte k s)) = (length s - k)%nat) /\
+  ((length s < k)%nat -> snd (take_byte k s) = [] /\
+                        exists p, fst (take_byte k s) = s ++ repeat false p).
+Proof.
+  induction k as [|k IH]; intros s.
+  - cbn. split; [reflexivity|]. split; [intros _; split; [reflexivity|lia]|intros H; lia].
+  - destruct s as [|b t]; cbn [take_byte].
+    + destruct (IH []) as (H1 & H2 & H3).
+      destruct (take_byte k []) as [bs r] eqn:E. cbn [fst snd length] in *.
+      split; [lia|]. split; [intros H; lia|]. intros _.
+      destruct k as [|k'].
+      * cbn in E. injection E as <- <-. split; [reflexivity|]. exists 1%nat. reflexivity.
+      * destruct H3 as [Hr [p Hp]]; [lia|]. split; [exact Hr|].
+        exists (S p). cbn in *. rewrite Hp. reflexivity.
+    + destruct (IH t) as (H1 & H2 & H3).
+      destruct (take_byte k t) as [bs r] eqn:E. cbn [fst snd length] in *.
+      split; [lia|]. split.
+      * intros H. destruct H2 as [Ha Hb]; [lia|]. split; [cbn; rewrite Ha; reflexivity|lia].
+      * intros H. destruct H3 as [Hr [p Hp]]; [lia|]. split; [exact Hr|].
+        exists p. cbn. rewrite Hp. reflexivity.
+Qed.
+
+Lemma bytes_of_bits_nil fuel : bytes_of_bits fuel [] = [].
+Proof. destruct fuel; reflexivity. Qed.
+
+Lemma bits_of_bytes_of_bits_gen : forall fuel s, (length s <= fuel)%nat ->
+  exists p, bits_of_bytes (bytes_of_bits fuel s) = s ++ repeat false p.
+Proof.
+  induction fuel as [|fuel IH]; intros s Hs.
+  - destruct s; [|cbn in Hs; lia]. exists 0%nat. reflexivity.
+  - destruct s as [|b t]; [exists 0%nat; reflexivity|].
+    cbn [bytes_of_bits].
+    destruct (take_byte_spec 8 (b :: t)) as (H1 & H2 & H3).
+    destruct (take_byte 8 (b :: t)) as [bs r] eqn:E. cbn [fst snd] in *.
+    cbn [bits_of_bytes].
+    assert (Hb : bits_of (of_bits bs) 8 = bs) by (rewrite <- H1 at 1; apply bits_of_of_bits).
+    rewrite Hb.
+    destruct (Nat.le_gt_cases 8 (length (b :: t))) as [Hge|Hlt].
+    + destruct (H2 Hge) as [Ha Hl].
+      destruct (IH r) as [p Hp]; [cbn [length] in *; lia|].
+      exists p. rewrite Hp, app_assoc, Ha. reflexivity.
+    + destruct (H3 Hlt) as [Hr [p Hp]]. subst r.
+      rewrite bytes_of_bits_nil. cbn [bits_of_bytes]. rewrite app_nil_r.
+      exists p. exact Hp.
+Qed.
+
+Lemma bits_of_bytes_of_bits bits :
+  exists pad, bits_of_bytes (bytes_of_bits (length bits) bits) = bits ++ pad.
+Proof.
+  destruct (bits_of_bytes_of_bits_gen (length bits) bits (Nat.le_refl _)) as [p Hp].
+  exists (repeat false p). exact Hp.
+Qed.
+
+(* the coder at byte level *)
+Theorem decode_bytes_encode_bytes mant mask maxr fs bytes :
+  mask_of mant = Some mask ->
+  Forall (fun f => f < 2 ^ 64) fs -> N.of_nat (length fs) < 2 ^ 64 ->
+  encode_bytes mant maxr fs = Some bytes ->
+  decode_bytes bytes = Some (expected mask fs).
+Proof.
+  intros Hm HF Hl. unfold encode_bytes. rewrite Hm. cbn [obind].
+  destruct (encode mask maxr fs) as [bits|] eqn:Eb; [|discriminate]. cbn [obind].
+  intros E. injection E as <-. unfold decode_bytes.
+  destruct (bits_of_bytes_of_bits bits) as (pad & Ep). rewrite Ep.
+  apply (decode_encode_suffix mask maxr fs bits pad HF Hl Eb).
+Qed.
+Global Opaque bits_of.
